@@ -137,6 +137,82 @@ def choicesum_history(r):
   return hist
 
 
+# ---- directed scenarios: run in every tier under every seed, independent of the random streams ------------------
+# (a) the ENGINE's conversions of set values to text (objtypes.safe_repr / encode_object, usertypes convert: alt text
+#     of typed columns, ChoiceList / RefList fallback text).  No formula applies str() to a set itself.
+NESTED_SETS = [
+  ('pairs', 'set(frozenset((r.A, r.B)) for r in Links.all)'),              # incomparable frozensets of strings
+  ('pairs_row', 'set(frozenset((r.A, r.B)) for r in Links.all if r.id != $id)'),
+  ('fz_of_fz', 'frozenset(frozenset((r.A, r.B, "kilo")) for r in Links.all)'),
+  ('fz_of_tuples', 'frozenset((r.A, r.N) for r in Links.all)'),
+  ('mixed', 'set([r.A for r in Links.all] + [r.N for r in Links.all] + [None])'),
+  ('fz_tuple_sets', 'set(frozenset([(r.A, r.N), (r.B, 1)]) for r in Links.all)'),
+]
+NESTED_TYPES = ['Any', 'Text', 'Int', 'ChoiceList', 'RefList:Links', 'Choice', 'Date']
+CONTAINERS = [
+  ('dict_sets', '{"k1": set(r.A for r in Links.all), "k2": frozenset(r.B for r in Links.all), "k3": $N}'),
+  ('list_sets', '[set(frozenset((r.A, r.B)) for r in Links.all), $N]'),
+  ('tuple_set', '(set(r.A for r in Links.all), "t")'),
+]
+LINKS_COLS = [{'id': 'A', 'type': 'Text', 'isFormula': False}, {'id': 'B', 'type': 'Text', 'isFormula': False},
+              {'id': 'N', 'type': 'Int', 'isFormula': False}]
+LINKS_DATA = {'A': ['alpha', 'bravo', 'charlie', 'delta', 'echo', 'foxtrot'],
+              'B': ['bravo', 'charlie', 'delta', 'echo', 'foxtrot', 'alpha'], 'N': [2, 10, 33, 4, 500, 6]}
+
+
+def nested_set_history(typ, forms):
+  hist = [[['AddTable', 'Links', copy.deepcopy(LINKS_COLS)]], [['BulkAddRecord', 'Links', [None] * 6, copy.deepcopy(LINKS_DATA)]]]
+  for name, f in forms:
+    hist.append([['AddColumn', 'Links', name, {'type': typ, 'isFormula': True, 'formula': f}]])
+  hist.append([['UpdateRecord', 'Links', 3, {'B': 'golf'}]])
+  hist.append([['RemoveRecord', 'Links', 1]])
+  first = forms[0][0]
+  hist.append([['ModifyColumn', 'Links', first, {'isFormula': False}]])         # the values become stored data
+  hist.append([['ModifyColumn', 'Links', first, {'type': 'Text' if typ != 'Text' else 'Any'}]])
+  hist.append([['AddRecord', 'Links', None, {'A': 'hotel', 'B': 'india', 'N': 7}]])
+  return hist
+
+
+# (b) RenameChoices on a column with a saved filter whose by-value list contains the rename TARGET (two entries merge)
+SHIRT_CHOICES = ['red', 'green', 'blue', 'teal', 'pink', 'gray', 'gold']
+
+
+def rename_choices_history(typ, key):
+  e, _ = G.new_doc()
+  cell = (lambda i: SHIRT_CHOICES[i]) if typ == 'Choice' else \
+         (lambda i: ['L', SHIRT_CHOICES[i], SHIRT_CHOICES[(i + 2) % 7], SHIRT_CHOICES[(i + 4) % 7]])
+  hist = [[['AddTable', 'Shirts', [{'id': 'Color', 'type': typ, 'isFormula': False},
+                                   {'id': 'Size', 'type': 'Choice', 'isFormula': False}]]],
+          [['BulkAddRecord', 'Shirts', [None] * 7, {'Color': [cell(i) for i in range(7)], 'Size': ['S', 'M'] * 3 + ['L']}]]]
+  for b in hist:
+    G.apply(e, copy.deepcopy(b))
+  col_ref = e.docmodel.get_column_rec('Shirts', 'Color').id
+  sections = [e.docmodel.get_table_rec('Shirts').rawViewSectionRef.id, e.docmodel.get_table_rec('Shirts').primaryViewId.viewSections[0].id]
+  hist.append([['BulkAddRecord', '_grist_Filters', [None] * len(sections),
+                {'viewSectionRef': sections, 'colRef': [col_ref] * len(sections),
+                 'filter': [json.dumps({key: SHIRT_CHOICES}), json.dumps({key: SHIRT_CHOICES[::-1][:5]})][:len(sections)],
+                 'pinned': [True] * len(sections)}]])
+  hist.append([['RenameChoices', 'Shirts', 'Color', {'red': 'green'}]])                    # merges two listed choices
+  hist.append([['RenameChoices', 'Shirts', 'Color', {'teal': 'pink', 'gold': 'gray', 'blue': 'navy'}]])
+  hist.append([['RenameChoices', 'Shirts', 'Size', {'S': 'M'}]])                            # a column without filter
+  return hist
+
+
+def directed_histories():
+  """[(name, history)]: fixed inputs, the same in every run."""
+  out = []
+  for typ in NESTED_TYPES:
+    out.append(('nested-sets:' + typ, nested_set_history(typ, NESTED_SETS)))
+  out.append(('nested-sets:Text:pairs-only', nested_set_history('Text', NESTED_SETS[:2])))
+  for typ, cs in (('Text', CONTAINERS), ('Any', CONTAINERS[:1]), ('Int', CONTAINERS[1:2])):
+    for c in cs:
+      out.append(('containers:%s:%s' % (typ, c[0]), nested_set_history(typ, [c])))
+  for typ in ('Choice', 'ChoiceList'):
+    for key in ('included', 'excluded'):
+      out.append(('rename-choices:%s:%s' % (typ, key), rename_choices_history(typ, key)))
+  return out
+
+
 def make_history(seed, nb, kind):
   """Generates one history in THIS process (explicit bundles, successful or not)."""
   r = random.Random(seed)
@@ -218,10 +294,10 @@ def normalise_set_displays(s):
       elif ch in '\'"':
         quote = ch
         cur.append(ch)
-      elif ch in '([':
+      elif ch in '([{':
         depth += 1
         cur.append(ch)
-      elif ch in ')]':
+      elif ch in ')]}':
         depth -= 1
         cur.append(ch)
       elif ch == ':' and depth == 0:
@@ -235,12 +311,52 @@ def normalise_set_displays(s):
     if ''.join(cur).strip():
       out.append(''.join(cur).strip())
     return out
-  def fix(m):
-    parts = split_top(m.group(0)[1:-1])
-    if parts is None or len(parts) < 2:
-      return m.group(0)
-    return '{' + ', '.join(sorted(parts)) + '}'
-  return re.sub(r'\{[^{}]*\}', fix, s)
+  def close_of(t, i):
+    """Index of the '}' matching the '{' at t[i] (quotes respected), or -1."""
+    depth, quote, j = 0, None, i
+    while j < len(t):
+      ch = t[j]
+      if quote:
+        if ch == '\\':
+          j += 1
+        elif ch == quote:
+          quote = None
+      elif ch in '\'"':
+        quote = ch
+      elif ch == '{':
+        depth += 1
+      elif ch == '}':
+        depth -= 1
+        if depth == 0:
+          return j
+      j += 1
+    return -1
+  def norm(t):
+    """Inner displays first (a set of frozensets), then the group itself; dict displays keep their item order."""
+    out, i, quote = [], 0, None
+    while i < len(t):
+      ch = t[i]
+      if quote:
+        out.append(ch)
+        if ch == '\\' and i + 1 < len(t):
+          out.append(t[i + 1])
+          i += 1
+        elif ch == quote:
+          quote = None
+      elif ch in '\'"':
+        quote = ch
+        out.append(ch)
+      elif ch == '{' and close_of(t, i) > 0:
+        j = close_of(t, i)
+        body = norm(t[i + 1:j])
+        parts = split_top(body)
+        out.append('{' + (body if parts is None or len(parts) < 2 else ', '.join(sorted(parts))) + '}')
+        i = j
+      else:
+        out.append(ch)
+      i += 1
+    return ''.join(out)
+  return norm(s)
 
 
 def same_set_repr(a, b):
@@ -329,8 +445,58 @@ def set_nested_in_container_text(x, y):
                or t.startswith('frozenset(') or t.startswith('set(')
     if bare_set or not t or t[0] not in '[({':
       return False
+    if t[0] == '{' and not dict_display(t):
+      return False        # a SET display (e.g. a set of frozensets): objtypes.safe_repr is responsible, not str(container)
     found = True
   return found
+
+
+def choicelist_set_items(x, y):
+  """Only ChoiceList columns differ, and every differing value is a ['L', text, ...] list holding the SAME items up
+  to the element order of set displays, at least one item being the text of a set: usertypes.ChoiceList.do_convert of
+  a set whose items are sets (sorted(str(item) ...): str(item) is in hash order, and so is the sorted result)."""
+  found = []
+  def is_set_text(v):
+    return v.startswith(('frozenset(', 'set(', '{'))
+  def walk(a, b):
+    if type(a) != type(b):
+      return False
+    if isinstance(a, list):
+      if a == b:
+        return True
+      if len(a) == len(b) and a and a[0] == 'L' and b[0] == 'L' and all(isinstance(v, str) for v in a[1:] + b[1:]):
+        na, nb = sorted(normalise_set_displays(v) for v in a[1:]), sorted(normalise_set_displays(v) for v in b[1:])
+        if na == nb and any(is_set_text(v) for v in a[1:]):
+          found.append(1)
+          return True
+        return False
+      return len(a) == len(b) and all(walk(p, q) for p, q in zip(a, b))
+    if isinstance(a, dict):
+      return set(a) == set(b) and all(walk(a[k], b[k]) for k in a)
+    return a == b
+  return walk(x, y) and bool(found) and only_text_columns_differ(x, y, 'ChoiceList')
+
+
+def dict_display(t):
+  """t = '{...}' has a colon at the top level of the braces (outside strings and nested brackets): a dict display."""
+  depth, quote, i = 0, None, 0
+  while i < len(t):
+    ch = t[i]
+    if quote:
+      if ch == '\\':
+        i += 1
+      elif ch == quote:
+        quote = None
+    elif ch in '\'"':
+      quote = ch
+    elif ch in '([{':
+      depth += 1
+    elif ch in ')]}':
+      depth -= 1
+    elif ch == ':' and depth == 1:
+      return True
+    i += 1
+  return False
 
 
 def rename_table_order_only(x, y):
@@ -380,8 +546,8 @@ def only_text_columns_differ(x, y, typ='Text'):
     return False
   tname = dict(zip(meta_t['ids'], meta_t['cols']['tableId']))
   ctype = {}
-  for pid, cid, typ in zip(meta_c['cols']['parentId'], meta_c['cols']['colId'], meta_c['cols']['type']):
-    ctype[(tname.get(pid), cid)] = typ
+  for pid, cid, ct in zip(meta_c['cols']['parentId'], meta_c['cols']['colId'], meta_c['cols']['type']):
+    ctype[(tname.get(pid), cid)] = ct
   found = False
   for t in ta:
     if t not in tb or ta[t]['ids'] != tb[t]['ids']:
@@ -449,11 +615,15 @@ def compare_full(hist, sa, sb):
   i, x0, y0 = d
   x, y = strip_downstream(x0, y0)
   kind = 'cross-process-mismatch'
-  if set_repr_only(x, y):
+  if choicelist_set_items(x, y):
+    kind = 'set_items_in_choicelist_text'
+  elif set_repr_only(x, y):
     if set_nested_in_container_text(x, y):
       kind = 'set_nested_in_container_text'
     else:
       kind = 'set_repr_in_text_column' if only_text_columns_differ(x, y) else 'set_repr_in_unmarshallable_value'
+  elif choicelist_set_items(x, y):
+    kind = 'set_items_in_choicelist_text'
   elif list_order_only(x, y) and choicelist_order(x, y):
     kind = 'set_to_choicelist_order'
   elif rename_table_order_only(x, y):
@@ -710,6 +880,10 @@ def search(ctx):
   seeds = SEEDS_THOROUGH if ctx.tier == 'thorough' else SEEDS_QUICK
   plan = [('shared', ctx.n(3, 40)), ('c05', ctx.n(3, 60)), ('sets', ctx.n(3, 30)), ('choicesum', ctx.n(4, 40))]
   hists, kinds = [], []
+  for name, h in directed_histories():
+    hists.append(h)
+    kinds.append('directed:' + name.split(':')[0])
+  ctx.extra['directed_scenarios'] = len(hists)
   for kind, n in plan:
     for _ in range(n):
       hists.append(make_history(ctx.rng.randrange(1 << 30), ctx.n(8, 12), kind))
@@ -762,5 +936,6 @@ def search(ctx):
       continue
     i, kind, what = r
     ctx.violation(kind, what, {'history': copy.deepcopy(hist[:i]), 'bundle': copy.deepcopy(hist[i]), 'seeds': [ref, s]})
-    if len(ctx.violations) > 12:
+    open_kinds = set(k.get('violation_kind') for k in core.load_known() if k['property'] == ID and k.get('kind') == 'known')
+    if sum(1 for v in ctx.violations if v['kind'] not in open_kinds) > 12:      # registered findings do not use up the cap
       break
